@@ -45,6 +45,27 @@ contract(
 )
 
 contract(
+    "liquid2.context:RenderContext.loop_iterations",
+    props=["C06"],
+    params={"self": CTX(), "length": Int},
+    obj_fields=LOOPF,
+    inline=["liquid2.context:RenderContext.raise_for_loop_limit"],
+    pre=["length >= 0"],
+    # while the body runs, every nested limit check sees this loop's length as a factor (through the carry) ...
+    enter=[
+        "self.loop_iteration_carry == old(self.loop_iteration_carry) * length",
+        "self.loops == old(self.loops)",
+        "implies(self.env.loop_iteration_limit is not None and self.env.loop_iteration_limit != 0, "
+        "Product(self.loops) * length * old(self.loop_iteration_carry) <= self.env.loop_iteration_limit)",
+    ],
+    # ... and whatever way the body is left, the carry is what it was
+    post=["self.loop_iteration_carry == old(self.loop_iteration_carry)", "self.loops == old(self.loops)"],
+    post_exc={"BodyError": ["self.loop_iteration_carry == old(self.loop_iteration_carry)"],
+              "LoopIterationLimitError": ["self.loop_iteration_carry == old(self.loop_iteration_carry)"]},
+    raises={"BodyError": None, "LoopIterationLimitError": None},
+)
+
+contract(
     "liquid2.context:RenderContext.loop",
     props=["C06", "C07"],
     params={"self": CTX(), "namespace": Any_, "forloop": Any_},
